@@ -59,11 +59,12 @@ BINARIES = {
     "c09": ("asan", ["props/c09_tree.cpp", "seams/new_delete.cpp"], [], [], []),
     "c11": ("asan", ["props/c11_intrusive_signal.cpp", "seams/new_delete.cpp"], [], [], []),
     "c12": ("asan", ["props/c12_parse_stream.cpp"], [], [], []),
-    "c15": ("asan", ["props/c15_roundtrip.cpp"], [], [], []),
+    "c15": ("asan", ["props/c15_roundtrip.cpp", "seams/new_delete.cpp"], [], [], []),
     "c01": ("asan", ["props/c01_total_io.cpp", "seams/new_delete.cpp",
                      "seams/stat_interpose.cpp"], [], ["-ldl"], []),
     "c19s": ("asan", ["props/c19_log_seq.cpp", "seams/new_delete.cpp"], [], [], []),
     "c19c": ("tsan", ["props/c19_log_conc.cpp"], [], C19C_WRAPS, ["seams/fiber_sched.cpp"]),
+    "c12c": ("tsan", ["props/c12_parse_conc.cpp"], [], C19C_WRAPS, ["seams/fiber_sched.cpp"]),
 }
 
 GEN = {
